@@ -32,6 +32,8 @@ class Parenthesis(Token):
             Empty().ast(tokens, stack, builder)
         if self.has_start and tokens and isinstance(tokens[-1], Operand):
             raise TokenError
+        if self.has_start:
+            _check_operand_end(tokens)
         super(Parenthesis, self).ast(tokens, stack, builder)
         if self.has_start:
             stack.append(self)
@@ -56,6 +58,12 @@ class Parenthesis(Token):
                     builder.append(Separator(','))
 
             _update_n_args(stack)
+
+
+def _check_operand_end(tokens):
+    # A closed parenthesis cannot be followed by the start of a new operand.
+    if tokens and isinstance(tokens[-1], Parenthesis) and tokens[-1].has_end:
+        raise TokenError
 
 
 def _update_n_args(stack):
